@@ -15,8 +15,9 @@
      CL l      a step of the lock protocol (Mutex.step); LLeave g - the
                deferred Unlock - only once g's Start has returned (PDone)
      CLook g   Start's look-up (its first access to the session table), on the
-               shared state; in the locked system only once g's own Lock(kk)
-               has returned (g in GHold kk); the result is kept in g's phase
+               shared state; in the locked system only once g's own Lock of
+               the presented cookie's key has returned (g in GHold of
+               lock_key of that cookie); the result is kept in g's phase
      CRest g   the rest of Start and of the request step, computed from g's
                LOCAL look-up result on the shared state AS IT IS THEN
      CTick d   the clock advances by d; only while no goroutine is between
@@ -32,6 +33,35 @@
    world actions in the order in which they were completed - a request step
    HReq reqs[g] per AReq g, a wait HWait d per ATick d - returning the world
    and each request's observation (C04K_serial_meaning).
+
+   SCOPE: PLAIN CALLS OF START ON ONE ID. Two things are placed inside the
+   critical section in this model that are not inside it in Go: `req_finish`
+   (Hist.step's epilogue) fires the due clean-ups and runs the HANDLER SCRIPT
+   within CRest g, and LLeave g waits for it - while in Go the deferred Unlock
+   fires when Start returns, before the handler runs (session.go:82-83), and
+   the clean-up goroutine is not under this lock. For a request with a
+   non-empty handler script the system would claim a serialisation the code
+   does not give. Therefore every initial state (CI0, through its part PC)
+   requires `Forall (plain_on kk) reqs`: every request has an EMPTY handler
+   script and carries one and the same ID k as a forged cookie, and the lock key
+   kk IS the code of that ID (kk = key_code k: C04K_plain_on_meaning,
+   C04K_initial_requests, C04K_initial_key_tied). In Go the lock key is the
+   cookie value and a value that is not an ID takes no lock; here CLook g is
+   guarded by g holding `lock_key` of the cookie ITS request presents (None: no
+   lock needed; C04K_lock_key_meaning) - the key is not a free parameter of
+   `cstep`. C04K_serial_order, C04K_invariant, C04K_progress and the two
+   C04K_one_new_id theorems are thus claims about K plain calls of Start on one
+   ID, nothing else; handlers run after the lock is released and are not
+   serialised by it (C08's subject).
+
+   THE CACHE AND THE SINGLE CUT. The unlocked refutation has the cache switched
+   off. With the cache on, both look-ups return the same heap object, and
+   Start's age test - part of the rest - already sees the rotated creation time:
+   one ID is drawn and the second goroutine gets the session WITHOUT a
+   redirecting cookie (unlocked_cache_reports_ex). The double mint with the
+   cache on needs a cut between the age test and RegenerateID; the single cut at
+   the look-up is too coarse to show it. The locked theorems do not depend on
+   the cache size; locked_cache_ex is an instance with a cache of 10.
 
    What is assumed, not proved: that Start's accesses to the session table lie
    between Lock and the deferred Unlock (pinned per run by Properties/Shape.v:
@@ -71,9 +101,32 @@ Theorem C04K_initial_meaning :
   CI0 kk reqs w cs <->
   Inv (c_lock cs) /\
   (length (c_ph cs) = length (gs (c_lock cs)) /\ length reqs = length (gs (c_lock cs)) /\
-   forall g x p, nth_error (gs (c_lock cs)) g = Some x -> nth_error (c_ph cs) g = Some p -> gp_ok kk x p = true) /\
+   (forall g x p, nth_error (gs (c_lock cs)) g = Some x -> nth_error (c_ph cs) g = Some p -> gp_ok kk x p = true) /\
+   Forall (plain_on kk) reqs) /\
   Forall (fun p => p = PIdle) (c_ph cs) /\ c_acts cs = [] /\ mkWorld (c_st cs) (c_jars cs) = w.
 Proof. exact CI0_meaning. Qed.
+
+(* the requests of an initial state: plain calls of Start (empty handler
+   script) carrying one ID k as a forged cookie, the lock key being k's code *)
+Theorem C04K_plain_on_meaning :
+  forall k r, plain_on (key_code k) r <-> rq_script r = [] /\ rq_present r = PForge (CKey k).
+Proof. exact plain_on_meaning. Qed.
+
+Theorem C04K_initial_requests :
+  forall k reqs w cs, CI0 (key_code k) reqs w cs ->
+  Forall (fun r => rq_script r = [] /\ rq_present r = PForge (CKey k)) reqs.
+Proof. exact initial_requests. Qed.
+
+Theorem C04K_initial_key_tied :
+  forall kk reqs w cs r k, CI0 kk reqs w cs -> In r reqs -> rq_present r = PForge (CKey k) -> kk = key_code k.
+Proof. exact initial_key_tied. Qed.
+
+(* the lock key is the presented ID (injectively); no ID, no lock *)
+Theorem C04K_lock_key_meaning :
+  (forall k, lock_key (CKey k) = Some (key_code k)) /\
+  (forall c, (forall k, c <> CKey k) -> lock_key c = None) /\
+  (forall k1 k2, key_code k1 = key_code k2 -> k1 = k2).
+Proof. exact lock_key_meaning. Qed.
 
 Theorem C04K_idle_goroutine_meaning :
   forall kk x,
@@ -83,10 +136,13 @@ Theorem C04K_idle_goroutine_meaning :
 Proof. exact gp_ok_idle_meaning. Qed.
 
 Theorem C04K_cinit_initial :
-  forall kk reqs w purges, CI0 kk reqs w (cinit kk reqs w purges).
+  forall kk reqs w purges, Forall (plain_on kk) reqs -> CI0 kk reqs w (cinit kk reqs w purges).
 Proof. exact cinit_ci0. Qed.
 
 (* --- (a) every admissible run of the locked system is a serial execution ---
+
+   (Of K PLAIN calls of Start on ONE ID: CI0 requires Forall (plain_on kk) reqs,
+   see SCOPE in the header.)
 
    In every state of every admissible run from an initial state:
    - at most one goroutine is inside the critical section of kk, and a
@@ -103,7 +159,7 @@ Proof. exact cinit_ci0. Qed.
      service is a permutation of the K goroutines. *)
 Theorem C04K_serial_order :
   forall kk reqs w cs0 ls cs,
-  CI0 kk reqs w cs0 -> crun true kk reqs cs0 ls = Some cs -> cadm_run true kk reqs cs0 ls ->
+  CI0 kk reqs w cs0 -> crun true reqs cs0 ls = Some cs -> cadm_run true reqs cs0 ls ->
   (forall g1 g2, holds_key (c_lock cs) g1 kk = true -> holds_key (c_lock cs) g2 kk = true -> g1 = g2) /\
   (forall g, is_looked (nth g (c_ph cs) PIdle) = true -> holds_key (c_lock cs) g kk = true) /\
   c_acts cs = rev (acts_of ls) /\
@@ -143,7 +199,7 @@ Proof. exact log_meaning. Qed.
 Theorem C04K_invariant :
   forall kk reqs w,
   (forall cs, CI0 kk reqs w cs -> CI kk reqs w cs) /\
-  (forall cs lab cs', CI kk reqs w cs -> cstep true kk reqs cs lab = Some cs' -> cadm cs lab -> CI kk reqs w cs').
+  (forall cs lab cs', CI kk reqs w cs -> cstep true reqs cs lab = Some cs' -> cadm cs lab -> CI kk reqs w cs').
 Proof. exact (fun kk reqs w => conj (ci0_ci kk reqs w) (ci_step kk reqs w)). Qed.
 
 (* --- (b) K goroutines on one due ID: one new ID, everybody on it ---
@@ -175,7 +231,7 @@ Theorem C04K_one_new_id :
   (since (r_access rc) (now (w_st w)) < c_expiry (conf (w_st w)))%Z ->
   Forall (acc_req k rc (conf (w_st w))) reqs ->
   forall kk cs0 ls cs,
-  CI0 kk reqs w cs0 -> crun true kk reqs cs0 ls = Some cs -> cadm_run true kk reqs cs0 ls ->
+  CI0 kk reqs w cs0 -> crun true reqs cs0 ls = Some cs -> cadm_run true reqs cs0 ls ->
   let acts := c_acts cs in
   let c := conf (w_st w) in
   let n := supply (w_st w) in
@@ -205,8 +261,8 @@ Proof. exact one_new_id. Qed.
 Theorem C04K_one_new_id_every_schedule :
   forall reqs k rc kk w0 cs0 pre post cs1 cs,
   CI0 kk reqs w0 cs0 ->
-  crun true kk reqs cs0 pre = Some cs1 -> crun true kk reqs cs1 post = Some cs ->
-  cadm_run true kk reqs cs0 (pre ++ post) ->
+  crun true reqs cs0 pre = Some cs1 -> crun true reqs cs1 post = Some cs ->
+  cadm_run true reqs cs0 (pre ++ post) ->
   Forall pre_label pre -> (post = [] \/ exists g post', post = CLook g :: post') ->
   let w := mkWorld (c_st cs1) (c_jars cs1) in
   let c := conf (w_st w) in
@@ -235,7 +291,7 @@ Proof. exact one_new_id_any_start. Qed.
 
 Theorem C04K_every_run_splits :
   forall kk reqs w0 cs0 ls cs,
-  CI0 kk reqs w0 cs0 -> crun true kk reqs cs0 ls = Some cs ->
+  CI0 kk reqs w0 cs0 -> crun true reqs cs0 ls = Some cs ->
   exists pre post, ls = pre ++ post /\ Forall pre_label pre /\
     (post = [] \/ exists g post', post = CLook g :: post').
 Proof. exact every_run_splits. Qed.
@@ -246,6 +302,8 @@ Proof. exact pre_label_meaning. Qed.
 
 (* --- (c) progress: with C14's no_deadlock and measure ---
 
+   (Again for K plain calls of Start on one ID: CI0.)
+
    Every step other than a clock tick decreases cmeasure (so a run has at most
    cmeasure of its start many of them); in every state of an admissible run
    from an initial state: while somebody has not finished, a step other than a
@@ -254,16 +312,16 @@ Proof. exact pre_label_meaning. Qed.
    finish exists; and then every goroutine's Start has returned. *)
 Theorem C04K_progress :
   forall kk reqs w,
-  (forall cs lab cs', cstep true kk reqs cs lab = Some cs' ->
+  (forall cs lab cs', cstep true reqs cs lab = Some cs' ->
      match lab with CTick _ => cmeasure cs' = cmeasure cs | _ => cmeasure cs' < cmeasure cs end) /\
-  (forall ls cs cs', crun true kk reqs cs ls = Some cs' ->
+  (forall ls cs cs', crun true reqs cs ls = Some cs' ->
      length (filter (fun lab => match lab with CTick _ => false | _ => true end) ls) + cmeasure cs' <= cmeasure cs) /\
   forall cs0 ls cs,
-    CI0 kk reqs w cs0 -> crun true kk reqs cs0 ls = Some cs -> cadm_run true kk reqs cs0 ls ->
+    CI0 kk reqs w cs0 -> crun true reqs cs0 ls = Some cs -> cadm_run true reqs cs0 ls ->
     (all_done cs = false ->
-       exists lab cs', no_tick lab /\ cstep true kk reqs cs lab = Some cs' /\ cadm cs lab) /\
-    ((forall lab cs', no_tick lab -> cstep true kk reqs cs lab = Some cs' -> ~ cadm cs lab) -> all_done cs = true) /\
-    (exists ls' cs', crun true kk reqs cs ls' = Some cs' /\ cadm_run true kk reqs cs ls' /\
+       exists lab cs', no_tick lab /\ cstep true reqs cs lab = Some cs' /\ cadm cs lab) /\
+    ((forall lab cs', no_tick lab -> cstep true reqs cs lab = Some cs' -> ~ cadm cs lab) -> all_done cs = true) /\
+    (exists ls' cs', crun true reqs cs ls' = Some cs' /\ cadm_run true reqs cs ls' /\
                      Forall no_tick ls' /\ all_done cs' = true) /\
     (all_done cs = true -> forall g, g < length reqs -> exists o, nth_error (c_ph cs) g = Some (PDone o)).
 Proof. exact progress. Qed.
@@ -283,9 +341,9 @@ Theorem C04K_unlocked_refuted :
     (0 < c_grace (conf (w_st w)))%Z /\
     (since (r_access rc) (now (w_st w)) < c_expiry (conf (w_st w)))%Z /\
     Forall (acc_req k rc (conf (w_st w))) reqs /\
-    crun false 0 reqs (cinit 0 reqs w 0) ls = Some cs /\
+    crun false reqs (cinit (key_code k) reqs w 0) ls = Some cs /\
     request_first (c_acts cs) /\ ticks (c_acts cs) = 0%Z /\
-    crun false 0 reqs (cinit 0 reqs w 0) (firstn 2 ls) = Some mid /\
+    crun false reqs (cinit (key_code k) reqs w 0) (firstn 2 ls) = Some mid /\
     is_looked (nth 0 (c_ph mid) PIdle) = true /\ is_looked (nth 1 (c_ph mid) PIdle) = true /\
     let n := supply (w_st w) in
     exists o0 o1,
@@ -300,8 +358,8 @@ Proof. exact unlocked_refuted. Qed.
    entry as stale; C13_needs_hold_bound_refuted's run): two goroutines hold the
    key, both rotate. *)
 Theorem C04K_inadmissible_refuted :
-  crun true 0 reqsK (cinit 0 reqsK wK 1) runI = Some csI /\
-  cadmb_run true 0 reqsK (cinit 0 reqsK wK 1) runI = false /\
+  crun true reqsK (cinit kkE reqsK wK 1) runI = Some csI /\
+  cadmb_run true reqsK (cinit kkE reqsK wK 1) runI = false /\
   exists o0 o2,
     nth_error (c_ph csI) 0 = Some (PDone o0) /\ nth_error (c_ph csI) 2 = Some (PDone o2) /\
     ob_cookies o0 = [CkLive (KGen 2)] /\ ob_cookies o2 = [CkLive (KGen 3)] /\
@@ -312,6 +370,10 @@ Print Assumptions C04K_cut_is_start.
 Print Assumptions C04K_cut_is_step.
 Print Assumptions C04K_initial_meaning.
 Print Assumptions C04K_idle_goroutine_meaning.
+Print Assumptions C04K_plain_on_meaning.
+Print Assumptions C04K_initial_requests.
+Print Assumptions C04K_initial_key_tied.
+Print Assumptions C04K_lock_key_meaning.
 Print Assumptions C04K_cinit_initial.
 Print Assumptions C04K_serial_order.
 Print Assumptions C04K_serial_meaning.
@@ -336,3 +398,9 @@ Print Assumptions locked_mid_ex.
 Print Assumptions unlocked_reports_ex.
 Print Assumptions completes_ex.
 Print Assumptions any_start_ex.
+(* the same with the local cache on: locked, one draw; unlocked, one draw but
+   no redirecting cookie for the second goroutine *)
+Print Assumptions state_hyps_cache_ex.
+Print Assumptions locked_cache_ex.
+Print Assumptions locked_cache_reports_ex.
+Print Assumptions unlocked_cache_reports_ex.
